@@ -90,7 +90,7 @@ func failingStatements(r *core.Rng) (stmts []ast.Node, where string) {
 		}
 		return ast.Block{Stmts: ss}
 	}
-	switch r.Intn(10) {
+	switch r.Intn(11) {
 	case 0:
 		where = "top-level"
 		stmts = []ast.Node{blk(append(pre(), ast.Assign{Name: "gz", Value: f})...)}
@@ -132,6 +132,18 @@ func failingStatements(r *core.Rng) (stmts []ast.Node, where string) {
 		where = "loop-body-in-function-at-depth"
 		stmts = []ast.Node{boom, ast.Assign{Name: "zlf", Value: ast.FuncLit{Params: []string{"n"}, Body: ast.For{Vars: []string{"i"}, Iters: []ast.Node{icall("fromto", il(0), nm("n"))}, Body: ast.If{Cond: ast.Binary{Op: "==", L: nm("i"), R: il(2)}, Then: icall("zboom", il(7)), Else: nm("i")}}}},
 			icall("zlf", il(5))}
+	case 10: // a failed assignment (assigning an absent value) to a global that is already bound
+		where = "nil-assignment-to-bound-global"
+		g := []string{"ga", "gb", "gw"}[r.Intn(3)]
+		switch r.Intn(3) {
+		case 0:
+			stmts = []ast.Node{ast.Assign{Name: g, Value: nm("znosuch")}}
+		case 1:
+			stmts = []ast.Node{ast.Assign{Name: "znone", Value: ast.FuncLit{Body: ast.While{Cond: ast.BoolLit{V: false}, Body: il(1)}}}, ast.Assign{Name: g, Value: icall("znone")}}
+		default:
+			stmts = []ast.Node{ast.Assign{Name: "zng", Value: ast.FuncLit{Body: ast.Block{Stmts: []ast.Node{ast.Yield{X: il(41)}, ast.Yield{X: nm("znosuch")}}}}},
+				ast.For{Vars: []string{g}, Iters: []ast.Node{icall("zng")}, Body: ast.Assign{Name: "gz", Value: ast.Binary{Op: "+", L: nm(g), R: il(1)}}}}
+		}
 	case 8:
 		where = "parse-error"
 		stmts = nil
@@ -366,6 +378,6 @@ func init() {
 		Families: []core.Family{
 			{Name: "twin", Count: countFn(10000, 300000), Run: c08Case},
 		},
-		Floors: []core.Floor{{Key: "suffix_statements_compared", Quick: 20000, Thor: 2000000}, {Key: "failures_injected", Quick: 2500, Thor: 250000}, {Key: "parse_errors_injected", Quick: 150, Thor: 15000}, {Key: "tag:failure-at:", Quick: 10, Thor: 10}, {Key: "tag:err:", Quick: 7, Thor: 7}},
+		Floors: []core.Floor{{Key: "suffix_statements_compared", Quick: 20000, Thor: 2000000}, {Key: "failures_injected", Quick: 2500, Thor: 250000}, {Key: "parse_errors_injected", Quick: 150, Thor: 15000}, {Key: "tag:failure-at:", Quick: 11, Thor: 11}, {Key: "tag:err:", Quick: 7, Thor: 7}},
 	})
 }
